@@ -99,7 +99,7 @@ static int mode_files(int cases)
     std::string fr = std::string(dir) + "/r.txt", ft = std::string(dir) + "/t.txt";
     for (int c = 0; c < cases; c++) {
         int nr_exp = rng.range(2, 6), aniso = rng.range(0, 2), div = rng.range(0, 1);
-        int precision = rng.pick(std::vector<int>{6, 12, 18});
+        int precision = rng.pick(std::vector<int>{16, 17, 18}); // full double precision; fewer digits fail the loader's own 1e3*eps validity checks (clean exception)
         try {
             PolarGrid g(1e-5, 1.3, nr_exp, -1, 0.66, aniso < nr_exp ? aniso : 0, div);
             g.writeToFile(fr, ft, precision);
